@@ -394,6 +394,21 @@ impl Context {
                 fileids.insert(fileid);
             }
         }
+
+        // A merge drops the tombstones of the files it merges. That is only safe when every
+        // value that a tombstone shadows is dropped with it, and such a value can be in any
+        // older file. Otherwise the deleted key comes back when the storage is reopened. So a
+        // file that holds tombstones is left alone unless all older files are merged as well
+        let mut all_fileids = self.stats.iter().map(|e| *e.key()).collect::<Vec<u64>>();
+        all_fileids.sort_unstable();
+        let mut older_files_are_merged = true;
+        for fileid in all_fileids {
+            let has_tombstones = self.stats.get(&fileid).map_or(false, |s| s.tombstones > 0);
+            if has_tombstones && !older_files_are_merged {
+                fileids.remove(&fileid);
+            }
+            older_files_are_merged = older_files_are_merged && fileids.contains(&fileid);
+        }
         Ok(fileids)
     }
 }
@@ -468,11 +483,12 @@ impl Writer {
                 // The entry is in the file but it is not going to be in KeyDir, account it
                 // as a dead entry so that the file can be merged
                 self.written_bytes += index.len;
-                self.ctx
-                    .stats
-                    .entry(self.active_fileid)
-                    .or_default()
-                    .add_dead(index.len);
+                let mut stats = self.ctx.stats.entry(self.active_fileid).or_default();
+                if datafile_entry.value.is_some() {
+                    stats.add_dead(index.len);
+                } else {
+                    stats.add_tombstone(index.len);
+                }
                 return Err(e.into());
             }
         }
@@ -489,7 +505,7 @@ impl Writer {
             if datafile_entry.value.is_some() {
                 stats.add_live();
             } else {
-                stats.add_dead(index.len);
+                stats.add_tombstone(index.len);
             }
             debug!(
                 entry_len = %index.len,
@@ -522,13 +538,18 @@ impl Writer {
     #[tracing::instrument(level = "debug", skip(self))]
     fn merge(&mut self) -> Result<(), Error> {
         let path = self.ctx.conf.path.as_path();
+
+        // Get the set of file ids to be merged
+        let fileids_to_merge = self.ctx.fileids_to_merge(path)?;
+        if fileids_to_merge.is_empty() {
+            // Nothing can be merged at the moment, do not create any file
+            return Ok(());
+        }
+
         let min_merge_fileid = self.min_unused_fileid;
         let mut merge_fileid = min_merge_fileid;
         self.min_unused_fileid = merge_fileid + 1;
         debug!(merge_fileid, "new merge file");
-
-        // Get the set of file ids to be merged
-        let fileids_to_merge = self.ctx.fileids_to_merge(path)?;
 
         // NOTE: we use an explicit scope here to control the lifetimes of `readers`,
         // `merge_datafile_writer` and `merge_hintfile_writer`. We drop the readers
@@ -905,7 +926,7 @@ where
                 stats
                     .entry(fileid)
                     .or_default()
-                    .add_dead(datafile_index.len);
+                    .add_tombstone(datafile_index.len);
                 // Remove the deleted key, its previous value is now dead
                 if let Some((_, prev_keydir_entry)) = keydir.remove(&datafile_entry.key) {
                     stats
